@@ -40,6 +40,13 @@ def main(argv: list[str]) -> int:
         bootstrap.boot()
         import dask, distributed, numpy, odc.geo, pyproj, rasterio, tifffile, xarray  # noqa
 
+        import subprocess
+
+        try:  # fake-vs-real distributed conformance: reported, never fatal
+            r = subprocess.run([sys.executable, os.path.abspath(__file__), "selftest-conformance"], capture_output=True, text=True, timeout=180)
+            print((r.stdout.strip().splitlines() or ["selftest-conformance: no output"])[-1])
+        except Exception as e:  # pylint: disable=broad-except
+            print(f"selftest-conformance: skipped ({type(e).__name__})")
         print("setup ok:", "odc.geo at", os.path.dirname(odc.geo.__file__), "dask", dask.__version__, "distributed", distributed.__version__, "numpy", numpy.__version__, "xarray", xarray.__version__, "rasterio", rasterio.__version__, "tifffile", tifffile.__version__, "pyproj", pyproj.__version__)
         return 0
     if argv and argv[0].startswith("selftest"):
